@@ -85,6 +85,9 @@ def startsMinus : Spec.Expr → Bool
   | .un .neg _ => true
   | _ => false
 
+/-- names the model's `CallFunction.generate_lingo` prints in a special form -/
+def plainCallName (f : Spec.Name) : Bool := f != "sound".toList && f != "go".toList
+
 mutual
 /-- expressions of the link theorems -/
 def FragE : Spec.Expr → Bool
@@ -93,6 +96,9 @@ def FragE : Spec.Expr → Bool
   | .un .neg a => FragE a && !startsMinus a
   | .un .not a => FragE a
   | .bin o a b => decide (o ≠ .starts) && FragE a && FragE b
+  | .field a => FragE a
+  | .call f as => idOk f && plainCallName f && !as.isEmpty && FragL as     -- F125: a zero-argument call prints as the bare name
+  | .list as => FragL as
   | _ => false
 def FragL : List Spec.Expr → Bool
   | [] => true
@@ -107,11 +113,23 @@ def FragLv : Spec.Expr → Bool
 /-- statements of the link theorems -/
 def FragS : Spec.Stmt → Bool
   | .set lv v => FragLv lv && FragE v
+  | .call f as => idOk f && plainCallName f && FragL as
+  | .exit => true
   | _ => false
 
 def FragSs : List Spec.Stmt → Bool
   | [] => true
   | s :: ss => FragS s && FragSs ss
+
+/-- handlers of the link theorems: `on` handlers whose globals / properties are declared at script level -/
+def FragH (s : Spec.Script) (h : Spec.Handler) : Bool :=
+  !h.isMethod && idOk h.name && h.params.all idOk && FragSs h.body
+    && (Spec.Stmt.varsList .glob h.body).all (fun g => s.globals.contains g)
+    && (Spec.Stmt.varsList .prop h.body).all (fun v => s.props.contains v)
+
+/-- scripts of the link theorems (explicit, decidable): plain scripts (no factory), any number of handlers -/
+def FragScript (s : Spec.Script) : Bool :=
+  s.factory.isEmpty && s.props.all idOk && s.globals.all idOk && s.handlers.all (FragH s)
 
 /-! ### the text the model prints for a source program -/
 
@@ -167,6 +185,30 @@ def mText (s : Spec.Script) : Str :=
   (if s.props.length > 0 then S "property " ++ Lscr.joinWith (S ", ") s.props ++ S "\n" else [])
     ++ (if s.globals.length > 0 then (s.globals.map fun g => S "global " ++ g ++ S "\n").flatten ++ S "\n" else [])
     ++ mHandlers s.handlers true
+
+/-! ### the tokens of the model's text: the reference printer's tokens in the decompiler's layout (blank lines) -/
+
+def dHandler (h : Spec.Handler) : List Spec.Tok :=
+  Spec.kw "on" :: .id h.name :: Spec.prNames h.params ++ [.nl] ++ Spec.prSs h.body ++ [Spec.kw "end", .nl]
+
+def dHandlers : List Spec.Handler → Bool → List Spec.Tok
+  | [], _ => []
+  | h :: hs, first => (if first then [] else [.nl]) ++ dHandler h ++ dHandlers hs false
+
+/-- `printLingo s` with the decompiler's blank lines: one after the script-level `global` block, one between handlers -/
+def dToks (s : Spec.Script) : List Spec.Tok :=
+  (if s.props.length > 0 then Spec.kw "property" :: Spec.prNames s.props ++ [.nl] else [])
+    ++ (if s.globals.length > 0 then s.globals.flatMap (fun g => [Spec.kw "global", .id g, .nl]) ++ [.nl] else [])
+    ++ dHandlers s.handlers true
+
+/-- the model as a decompiler in the sense of `DrxProps.C02.C02_full` -/
+def modelDecompile (lscr lnam : Bytes) : Option (List Char) :=
+  match Lscr.parseScript lscr lnam with
+  | .ok t =>
+    match (Lscr.genLingo t).1 with
+    | .ok txt => some txt
+    | .error _ => none
+  | .error _ => none
 
 /-! ### the model's opcode step on decoded instructions -/
 
